@@ -262,7 +262,9 @@ pub fn from_str(raw: &str) -> Result<(Game<String, String>, f64), Error<'_>> {
 
 pub fn from_reader(reader: &mut impl Read) -> (Game<String, String>, f64) {
     let mut buff = String::new();
-    reader.read_to_string(&mut buff).unwrap();
+    reader.read_to_string(&mut buff).expect(
+        "couldn't read the input as utf-8 text, so couldn't parse gambit game definition : https://github.com/erikbrinkman/cfr#gambit-error",
+    );
     from_str(&buff).expect(
         "couldn't parse gambit game definition : https://github.com/erikbrinkman/cfr#gambit-error",
     )
